@@ -6,9 +6,9 @@
    Parser level (proofs/ParserLayoutProof.v, ParserBlankLineProof.v): the parser looks at kinds and
    texts only (C20_parse_layout); an inserted blank line only shifts `line` of the rows below it.
    Property theorems only; proofs in proofs/LexerProof.v, RadixProof.v. *)
-From DTR Require Import Prelude I64 Ast FramedMap Lexer Parser.
+From DTR Require Import Prelude I64 Ast FramedMap Lexer LexSpec Parser.
 From DTR Require Import Generated GeneratedTables.
-From DTR.proofs Require Import LexerProof RadixProof TablesProof ParserProof ParserLinesProof ParserLayoutProof ParserBlankLineProof.
+From DTR.proofs Require Import LexSpecProof LexerProof RadixProof TablesProof ParserProof ParserLinesProof ParserLayoutProof ParserBlankLineProof.
 From Coq Require Import String.
 Local Open Scope N_scope.
 
@@ -157,6 +157,122 @@ Theorem C20_blank_line_after_newline :
   | _ => False
   end.
 Proof. exact C20_blank_line_after_newline. Qed.
+(* the regular expressions of src/lexer/token.rs (generated table gen_regexes, re-read from the source on every run) as syntax trees: parse_re understands every one of them *)
+Theorem C20_regexes_of_the_source_parse :
+  map (fun p : string * string => (fst p, parse_re (snd p))) gen_regexes =
+  [("Ident"%string, Some re_ident); ("DecInt"%string, Some re_dec); ("HexInt"%string, Some re_hex);
+  ("BinInt"%string, Some re_bin); ("OctInt"%string, Some re_oct); ("WS"%string, Some re_ws);
+  ("Comment"%string, Some re_comment)].
+Proof. exact parse_re_gen_regexes. Qed.
+
+(* the rule table of the statement lexer is COMPUTED from the generated tables (regexes through parse_re, keywords and punctuation as literal texts); none is dropped *)
+Theorem C20_scanner_rules_are_the_source :
+  lex_rules =
+  [(Some TIdent, re_ident); (Some TDecInt, re_dec); (Some THexInt, re_hex); (
+  Some TBinInt, re_bin); (Some TOctInt, re_oct); (None, re_ws); (None, re_comment)] ++
+  keyword_rules ++ punct_rules.
+Proof. exact lex_rules_eq. Qed.
+
+(* one step of the scanner splits the text into a non-empty lexeme and the rest (so lexing terminates), and stops only at the end *)
+Theorem C20_scanner_partition :
+  forall s : text,
+  (forall (k : option tk) (w r : text), lex_one s = Some (k, w, r) -> s = w ++ r /\ w <> []) /\
+  (lex_one s = None <-> s = []).
+Proof. exact lex_one_partition. Qed.
+
+(* the lexeme of every token (and of every skipped blank run / comment) is matched by the rule of that kind in the source's table ... *)
+Theorem C20_scanner_token_matches_its_rule :
+  forall (s : text) (k : option tk) (w r : text),
+  lex_one s = Some (k, w, r) -> k <> Some TError -> rule_matches lex_rules k w.
+Proof. exact lex_one_sound. Qed.
+
+(* ... and it is the LONGEST prefix any rule of the table matches (maximal munch), for every text *)
+Theorem C20_scanner_is_longest_match :
+  forall (s : text) (k : option tk) (w r : text),
+  lex_one s = Some (k, w, r) ->
+  k <> Some TError ->
+  forall (k' : option tk) (w' : text) (r' : list N),
+  rule_matches lex_rules k' w' -> s = w' ++ r' -> (Datatypes.length w' <= Datatypes.length w)%nat.
+Proof. exact lex_one_longest. Qed.
+
+(* an Error token is one character, at a position where no rule matches any non-empty prefix *)
+Theorem C20_scanner_error_only_where_no_rule_matches :
+  forall s w r : text,
+  lex_one s = Some (Some TError, w, r) ->
+  (exists c : N, w = [c]) /\
+  (forall (k' : option tk) (w' r' : list N), s = w' ++ r' -> w' <> [] -> ~ rule_matches lex_rules k' w').
+Proof. exact LexSpecProof.lex_one_error. Qed.
+
+(* ties: a lexeme matched by two rules gets the keyword's kind rather than Ident - except for the one documented quirk of the generated automaton (keyword followed by a non-ASCII character whose lead byte starts some Unicode digit) *)
+Theorem C20_scanner_priority :
+  forall (s : text) (k : tk) (w r : text) (k' : tk),
+  lex_one s = Some (Some k, w, r) ->
+  rule_matches lex_rules (Some k') w ->
+  k' = k \/ keyword_kind k /\ k' = TIdent \/ k = TIdent /\ In (w, k') gen_keywords /\ nd_lead_quirk r.
+Proof. exact lex_one_priority. Qed.
+
+(* a token's lexeme is never also a blank run or a comment *)
+Theorem C20_scanner_tokens_are_not_blank :
+  forall (s : text) (k : tk) (w r : text),
+  lex_one s = Some (Some k, w, r) -> ~ rule_matches lex_rules None w.
+Proof. exact lex_one_not_skipped. Qed.
+
+(* a keyword's text lexes as that keyword unless the quirk applies ... *)
+Theorem C20_scanner_keyword :
+  forall (s : text) (k : tk) (w r : text) (kk : tk),
+  lex_one s = Some (Some k, w, r) -> In (w, kk) gen_keywords -> ~ nd_lead_quirk r -> k = kk.
+Proof. exact lex_one_keyword. Qed.
+
+(* ... and as Ident when it does, *)
+Theorem C20_scanner_keyword_quirk :
+  forall (s : text) (k : tk) (w r : text) (kk : tk),
+  lex_one s = Some (Some k, w, r) -> In (w, kk) gen_keywords -> nd_lead_quirk r -> k = TIdent.
+Proof. exact lex_one_keyword_quirk. Qed.
+
+(* which really happens (loop directly followed by U+1F600; that text is rejected either way: the next token is Error) *)
+Theorem C20_scanner_quirk_occurs :
+  lex_one (s2n "loop" ++ [128512]) = Some (Some TIdent, s2n "loop", [128512]) /\
+  nd_lead_quirk [128512] /\ lex_one [128512] = Some (Some TError, [128512], []).
+Proof. exact quirk_occurs. Qed.
+
+(* the same for the header line: its rule table from the source's HeaderTokenKind *)
+Theorem C20_header_scanner_rules_are_the_source :
+  hlex_rules = [(Some HName, re_hname); (None, re_ws); (Some HEol, lit_re [10])].
+Proof. exact hlex_rules_eq. Qed.
+
+Theorem C20_header_scanner_partition :
+  forall s : text,
+  (forall (k : option htk) (w r : text), hlex_one s = Some (k, w, r) -> s = w ++ r /\ w <> []) /\
+  (hlex_one s = None <-> s = []).
+Proof. exact hlex_one_partition. Qed.
+
+Theorem C20_header_scanner_token_matches_its_rule :
+  forall (s : text) (k : option htk) (w r : text),
+  hlex_one s = Some (k, w, r) -> rule_matches hlex_rules k w.
+Proof. exact hlex_one_sound. Qed.
+
+Theorem C20_header_scanner_is_longest_match :
+  forall (s : text) (k : option htk) (w r : text),
+  hlex_one s = Some (k, w, r) ->
+  forall (k' : option htk) (w' : text) (r' : list N),
+  rule_matches hlex_rules k' w' -> s = w' ++ r' -> (Datatypes.length w' <= Datatypes.length w)%nat.
+Proof. exact hlex_one_longest. Qed.
+
+(* the header rules never match the same text, so no priorities are involved *)
+Theorem C20_header_scanner_rules_disjoint :
+  forall (k1 k2 : option htk) (w : text),
+  rule_matches hlex_rules k1 w -> rule_matches hlex_rules k2 w -> k1 = k2.
+Proof. exact hlex_rules_disjoint_kinds. Qed.
+
+(* every non-empty text starts with a token of the header table (no header character is an error) *)
+Theorem C20_header_scanner_total :
+  forall s : list N,
+  s <> [] ->
+  exists (k : option htk) (w r : text),
+  hlex_one s = Some (k, w, r) /\ s = w ++ r /\ w <> [] /\ rule_matches hlex_rules k w.
+Proof. exact hlex_one_no_error. Qed.
+
+
 
 
 
@@ -166,3 +282,10 @@ Print Assumptions C20_blank_run_irrelevant.
 Print Assumptions C20_comment_irrelevant.
 Print Assumptions C20_parse_layout.
 Print Assumptions C20_blank_line_after_newline.
+Print Assumptions C20_scanner_rules_are_the_source.
+Print Assumptions C20_scanner_token_matches_its_rule.
+Print Assumptions C20_scanner_is_longest_match.
+Print Assumptions C20_scanner_error_only_where_no_rule_matches.
+Print Assumptions C20_scanner_priority.
+Print Assumptions C20_header_scanner_is_longest_match.
+Print Assumptions C20_header_scanner_total.
